@@ -60,6 +60,12 @@ static std::atomic<long> g_steps{0};      // relaxed counters: no synchronisatio
 static std::atomic<long> g_foreign_model_calls{0};
 static const pthread_t g_main_thread = pthread_self();
 static std::atomic<bool> g_booted{false};
+static std::atomic<long> g_foreign_hook_calls{0};
+// the same for the hooks of the harness's filters (initialization_step / filtering_step / run_condition / log)
+static inline void hook_call() {
+    if (g_booted.load(std::memory_order_relaxed) && pthread_equal(pthread_self(), g_main_thread))
+        g_foreign_hook_calls.fetch_add(1, std::memory_order_relaxed);
+}
 static inline void model_call() {
     if (g_booted.load(std::memory_order_relaxed) && pthread_equal(pthread_self(), g_main_thread))
         g_foreign_model_calls.fetch_add(1, std::memory_order_relaxed);
@@ -140,8 +146,9 @@ public:
         : GaussianFilter(std::move(p), std::move(c)), pred_(N), corr_(N) { }
 protected:
     // the run condition reads plain state that filtering_step() mutates (both hooks belong to the filtering thread)
-    bool run_condition() override { return budget_ > 0 && total_left_ > 0 && step_number() < 2000000000u; }
+    bool run_condition() override { hook_call(); return budget_ > 0 && total_left_ > 0 && step_number() < 2000000000u; }
     bool initialization_step() override {
+        hook_call();
         corr_.mean() << 0.5, -0.5;
         corr_.covariance() = 0.3 * MatrixXd::Identity(N, N);
         budget_ = 2000000000L;
@@ -149,6 +156,7 @@ protected:
         return true;
     }
     void filtering_step() override {
+        hook_call();
         prediction().predict(corr_, pred_);
         correction().freeze_measurements();
         correction().correct(pred_, corr_);
@@ -161,7 +169,7 @@ protected:
     std::vector<std::string> log_file_names(const std::string& folder_path, const std::string& file_name_prefix) override {
         return { folder_path + "/" + file_name_prefix + "_pred_mean", folder_path + "/" + file_name_prefix + "_cor_mean" };
     }
-    void log() override { logger(pred_.mean().transpose(), corr_.mean().transpose()); }
+    void log() override { hook_call(); logger(pred_.mean().transpose(), corr_.mean().transpose()); }
 public:
     double result() const { return corr_.mean()(0) + corr_.covariance()(0, 0) + pred_.mean()(0); }   // owner reads the estimate
     void fail_initialisation(int times, long delay_us) { fail_inits_ = times; init_delay_us_ = delay_us; }   // before boot()
@@ -179,9 +187,10 @@ class HSis : public SIS {
 public:
     using SIS::SIS;
 protected:
-    void filtering_step() override { SIS::filtering_step(); --left_; --total_left_; g_steps.fetch_add(1, std::memory_order_relaxed); }
-    bool run_condition() override { return left_ > 0 && total_left_ > 0; }       // plain state mutated by the step
+    void filtering_step() override { hook_call(); SIS::filtering_step(); --left_; --total_left_; g_steps.fetch_add(1, std::memory_order_relaxed); }
+    bool run_condition() override { hook_call(); return left_ > 0 && total_left_ > 0; }       // plain state mutated by the step
     bool initialization_step() override {
+        hook_call();
         left_ = 2000000000L;
         bool ok = SIS::initialization_step();
         if (fail_inits_ > 0) { --fail_inits_; usleep(init_delay_us_); return false; }
@@ -402,7 +411,7 @@ static std::string run_exit(const std::string& kind, unsigned seed, const std::s
     return os.str();
 }
 
-static std::string fin(const std::string& o) { return o + " foreign_model_calls=" + std::to_string(g_foreign_model_calls.load(std::memory_order_relaxed)); }
+static std::string fin(const std::string& o) { return o + " foreign_model_calls=" + std::to_string(g_foreign_model_calls.load(std::memory_order_relaxed)) + " foreign_hook_calls=" + std::to_string(g_foreign_hook_calls.load(std::memory_order_relaxed)); }
 
 static double read_result(FilteringAlgorithm* f) {
     if (HGauss* g = dynamic_cast<HGauss*>(f)) return g->result();
